@@ -1,4 +1,5 @@
 import ArimModel.RayCache
+import ArimProofs.Lemmas.RayCache
 /-! # C14 — ray-geometry caching is transparent for every sequence of queries -/
 namespace Arim.C14
 open Arim.RayCache
@@ -17,5 +18,290 @@ theorem raw_zero_test_not_transparent :
 theorem norm_zero_test_same_history :
     spec (g3 false) .incLegSize (-3) = .ok .none ∧
     (query (g3 false) (query (g3 false) {} .incLegSize 0 true).2 .incLegSize (-3) true).1 = .ok .none := ⟨by rfl, by rfl⟩
+
+/-! ## 1. negative and positive indices are interchangeable on a fresh object -/
+
+/-- an out-of-range index is an `IndexError` on a fresh object (any version of the code) -/
+theorem spec_index_error (g : Geo) (m : Meth) (r : Int) (hr : norm g.n r = none) :
+    spec g m r = .error .index := by
+  cases m <;>
+    simp [spec, query, qLeg, qOrient, qIncLegSize, qIncCart, qIncRadius, qIncPolar, qIncAzimuth,
+      qIncAngle, qSignedInc, qConvInc, qOutCart, qOutRadius, qOutPolar, qOutAzimuth, qOutAngle,
+      qSignedOut, qConvOut, wrap, hr]
+
+/-- the fresh-object answer only depends on the normalised index (current code) -/
+theorem spec_normalised (g : Geo) (h : g.rawZeroTest = false) (m : Meth) (r : Int) (a : Nat)
+    (hr : norm g.n r = some a) : spec g m r = spec g m (a : Int) := by
+  rw [spec_eq_specN g h, specN_some hr, spec_natCast g h m (norm_lt hr)]
+
+/-- closed form of the fresh-object answer (current code) -/
+theorem spec_closed_form (g : Geo) (h : g.rawZeroTest = false) (m : Meth) (r : Int) :
+    spec g m r = match norm g.n r with
+      | Option.none => .error .index
+      | some a => ans g m a :=
+  spec_eq_specN g h m r
+
+/-! ## 2. one query on a valid state -/
+
+/-- **The decorator is transparent**, in terms of `Inv`/`spec`: if the body, run with the raw
+index on any valid state, answers like the fresh object and keeps the state valid, then so
+does the wrapped method. -/
+theorem wrap_transparent (g : Geo) (h : g.rawZeroTest = false) (m : Meth)
+    (body : St → Int → Res × St)
+    (hb : ∀ s, Inv g s → ∀ r a, norm g.n r = some a →
+      (body s r).1 = spec g m (a : Int) ∧ Inv g (body s r).2)
+    (s : St) (hs : Inv g s) (r : Int) (fin : Bool) :
+    (wrap g m body s r fin).1 = spec g m r ∧ Inv g (wrap g m body s r fin).2 := by
+  have hq : QOK g m (wrap g m body) := by
+    refine wrap_ok g m body fun s hs r a hn => ?_
+    obtain ⟨h1, h2⟩ := hb s ((inv_iff_invP g h s).2 hs) r a hn
+    exact ⟨by rw [h1, spec_natCast g h m (norm_lt hn)], (inv_iff_invP g h _).1 h2⟩
+  obtain ⟨h1, h2⟩ := hq s ((inv_iff_invP g h s).1 hs) r fin
+  exact ⟨by rw [h1, spec_eq_specN g h], (inv_iff_invP g h _).2 h2⟩
+
+/-- one query on any valid state answers exactly what a fresh object answers (value class or
+error kind) and keeps the state valid (also when the answer is an error) -/
+theorem query_transparent (g : Geo) (h : g.rawZeroTest = false) (s : St) (hs : Inv g s)
+    (m : Meth) (r : Int) (fin : Bool) :
+    (query g s m r fin).1 = spec g m r ∧ Inv g (query g s m r fin).2 := by
+  obtain ⟨h1, h2⟩ := query_ok g h m s ((inv_iff_invP g h s).1 hs) r fin
+  exact ⟨by rw [h1, spec_eq_specN g h], (inv_iff_invP g h _).2 h2⟩
+
+/-! ## 3. the invariant is kept by every operation -/
+
+theorem inv_init (g : Geo) : Inv g {} := by
+  intro m a v hl; simp at hl
+
+theorem inv_clearIntermediate (g : Geo) (s : St) (hs : Inv g s) : Inv g (clearIntermediate s) := by
+  intro m a v hl
+  unfold clearIntermediate at hl
+  simp only [lookup_filter_key (fun k => s.finals.contains k)] at hl
+  split at hl
+  · exact hs m a v hl
+  · cases hl
+
+theorem inv_runQueries (g : Geo) (h : g.rawZeroTest = false) (qs : List (Meth × Int × Bool)) :
+    ∀ s, Inv g s → Inv g (runQueries g s qs).2 := by
+  induction qs with
+  | nil => intro s hs; exact hs
+  | cons q rest ih =>
+    obtain ⟨m, r, f⟩ := q
+    intro s hs
+    obtain ⟨-, h2⟩ := query_transparent g h s hs m r f
+    cases hq : (query g s m r f).1 with
+    | error e => rw [runQueries_cons_error rest hq]; exact h2
+    | ok v => rw [runQueries_cons_ok rest hq]; exact ih _ h2
+
+theorem inv_step (g : Geo) (h : g.rawZeroTest = false) (s : St) (hs : Inv g s) (op : Op) :
+    Inv g (step g s op).2 := by
+  cases op with
+  | query m r f => exact (query_transparent g h s hs m r f).2
+  | clearIntermediate => exact inv_clearIntermediate g s hs
+  | clearAll => exact inv_init g
+  | precompute ops =>
+    have hi := inv_runQueries g h ops s hs
+    simp only [step]
+    split
+    · exact hi
+    · exact inv_clearIntermediate g _ hi
+  | beamspread => exact inv_runQueries g h _ s hs
+  | revBeamspread => exact inv_runQueries g h _ s hs
+  | transRefl => exact inv_runQueries g h _ s hs
+
+theorem inv_run (g : Geo) (h : g.rawZeroTest = false) (ops : List Op) :
+    ∀ s, Inv g s → Inv g (run g s ops) := by
+  induction ops with
+  | nil => intro s hs; exact hs
+  | cons op ops ih => intro s hs; exact ih _ (inv_step g h s hs op)
+
+/-! ## 4. caching is transparent for every sequence of operations -/
+
+/-- **Main theorem.** After ANY history of operations on a fresh object, every query answers
+exactly like a fresh object (same value class, same error kind). -/
+theorem cache_transparent (g : Geo) (h : g.rawZeroTest = false) (ops : List Op) (m : Meth)
+    (r : Int) (fin : Bool) : (query g (run g {} ops) m r fin).1 = spec g m r :=
+  (query_transparent g h _ (inv_run g h ops {} (inv_init g)) m r fin).1
+
+/-- the answers of a block of queries do not depend on the (valid) state they start from -/
+theorem runQueries_state_independent (g : Geo) (h : g.rawZeroTest = false)
+    (qs : List (Meth × Int × Bool)) :
+    ∀ s t, Inv g s → Inv g t → (runQueries g s qs).1 = (runQueries g t qs).1 := by
+  induction qs with
+  | nil => intro s t _ _; rfl
+  | cons q rest ih =>
+    obtain ⟨m, r, f⟩ := q
+    intro s t hs ht
+    obtain ⟨s1, s2⟩ := query_transparent g h s hs m r f
+    obtain ⟨t1, t2⟩ := query_transparent g h t ht m r f
+    cases hq : spec g m r with
+    | error e =>
+      rw [runQueries_cons_error rest (s1.trans hq), runQueries_cons_error rest (t1.trans hq)]
+    | ok v =>
+      rw [runQueries_cons_ok rest (s1.trans hq), runQueries_cons_ok rest (t1.trans hq)]
+      simp only [ih _ _ s2 t2]
+
+/-- the answers of `runQueries` (hence of `precompute` blocks and of the model functions
+`beamspread`, `rev_beamspread`, `trans_refl`) on a valid state equal those of a fresh object -/
+theorem runQueries_transparent (g : Geo) (h : g.rawZeroTest = false)
+    (qs : List (Meth × Int × Bool)) (s : St) (hs : Inv g s) :
+    (runQueries g s qs).1 = (runQueries g {} qs).1 :=
+  runQueries_state_independent g h qs s {} hs (inv_init g)
+
+/-- every operation, on a valid state, answers what it answers on a fresh object -/
+theorem step_transparent (g : Geo) (h : g.rawZeroTest = false) (s : St) (hs : Inv g s) (op : Op) :
+    (step g s op).1 = (step g {} op).1 := by
+  cases op with
+  | query m r f =>
+    simp only [step]
+    rw [(query_transparent g h s hs m r f).1, (query_transparent g h {} (inv_init g) m r f).1]
+  | clearIntermediate => rfl
+  | clearAll => rfl
+  | precompute ops =>
+    have hr := runQueries_transparent g h ops s hs
+    simp only [step]
+    split <;> split <;> exact hr
+  | beamspread => exact runQueries_transparent g h _ s hs
+  | revBeamspread => exact runQueries_transparent g h _ s hs
+  | transRefl => exact runQueries_transparent g h _ s hs
+
+/-- after any history, every operation answers what it answers on a fresh object -/
+theorem history_transparent (g : Geo) (h : g.rawZeroTest = false) (ops : List Op) (op : Op) :
+    (step g (run g {} ops) op).1 = (step g {} op).1 :=
+  step_transparent g h _ (inv_run g h ops {} (inv_init g)) op
+
+/-! ## 5. negative indices, after any history -/
+
+theorem neg_index_interchangeable (g : Geo) (h : g.rawZeroTest = false) (ops : List Op) (m : Meth)
+    (r : Int) (hr : -(g.n : Int) ≤ r ∧ r < 0) (fin : Bool) :
+    (query g (run g {} ops) m r fin).1 = (query g (run g {} ops) m (r + g.n) fin).1 := by
+  rw [cache_transparent g h, cache_transparent g h,
+    spec_normalised g h m r _ (norm_neg hr), spec_normalised g h m (r + g.n) _ (norm_add_len hr)]
+
+/-! ## 6. finals -/
+
+/-- a query never un-finalises a key -/
+theorem finals_monotone (g : Geo) (s : St) (m : Meth) (r : Int) (fin : Bool) (k : Key)
+    (hk : k ∈ s.finals) : k ∈ (query g s m r fin).2.finals :=
+  query_finSub g s m r fin k hk
+
+/-- `clear_intermediate_results` keeps every final entry (no hypothesis on duplicates needed:
+the filter keeps or drops all entries of a key together) -/
+theorem clearIntermediate_keeps_finals (s : St) (k : Key) (hk : k ∈ s.finals) :
+    lookup (clearIntermediate s).cache k = lookup s.cache k := by
+  unfold clearIntermediate
+  simp only [lookup_filter_key (fun k => s.finals.contains k)]
+  simp [hk]
+
+/-- ... and drops every non-final entry -/
+theorem clearIntermediate_drops_nonfinals (s : St) (k : Key) (hk : k ∉ s.finals) :
+    lookup (clearIntermediate s).cache k = none := by
+  unfold clearIntermediate
+  simp only [lookup_filter_key (fun k => s.finals.contains k)]
+  simp [hk]
+
+theorem clearIntermediate_finals (s : St) : (clearIntermediate s).finals = s.finals := rfl
+
+/-- a successful query leaves its answer cached under the normalised key, and final if it
+was asked as final -/
+theorem query_caches (g : Geo) (s : St) (m : Meth) (r : Int) (fin : Bool) (a : Nat) (v : Cls)
+    (hn : norm g.n r = some a) (hv : (query g s m r fin).1 = .ok v) :
+    lookup (query g s m r fin).2.cache (m, a) = some v ∧
+    (fin = true → (m, a) ∈ (query g s m r fin).2.finals) := by
+  cases m <;> exact wrap_caches g _ _ s r fin hn hv
+
+/-- a final answer survives `clear_intermediate_results` -/
+theorem final_survives_clear (g : Geo) (s : St) (m : Meth) (r : Int) (a : Nat) (v : Cls)
+    (hn : norm g.n r = some a) (hv : (query g s m r true).1 = .ok v) :
+    lookup (clearIntermediate (query g s m r true).2).cache (m, a) = some v := by
+  obtain ⟨h1, h2⟩ := query_caches g s m r true a v hn hv
+  rw [clearIntermediate_keeps_finals _ _ (h2 rfl), h1]
+
+/-! ## 7. the hypothesis `rawZeroTest = false` cannot be dropped, for any geometry -/
+
+/-- generalisation of `raw_zero_test_not_transparent`: with the raw index tested against 0,
+on EVERY path with at least one interface `inc_leg_size(-n)` raises `IndexError` on a fresh
+object but answers `None` once `inc_leg_size(0)` has been cached -/
+theorem raw_zero_test_never_transparent (g : Geo) (h : g.rawZeroTest = true) (hn : 0 < g.n) :
+    spec g .incLegSize (-(g.n : Int)) = .error .index ∧
+    (query g (query g {} .incLegSize 0 true).2 .incLegSize (-(g.n : Int)) true).1 = .ok .none := by
+  have h0 : norm g.n 0 = some 0 := norm_eq_some_iff.2 ⟨hn, Or.inl rfl⟩
+  have h1 : norm g.n (-(g.n : Int)) = some 0 := norm_eq_some_iff.2 ⟨hn, Or.inr (by omega)⟩
+  have h2 : norm g.n (-(g.n : Int) - 1) = none := norm_eq_none_iff.2 (Or.inl (by omega))
+  have h3 : (-(g.n : Int) == 0) = false := by
+    rw [Bool.eq_false_iff]; simp only [ne_eq, beq_iff_eq]; omega
+  constructor
+  · simp [spec, query, qIncLegSize, qLeg, wrap, isFirst, andThen, h, h1, h2, h3]
+  · simp [query, qIncLegSize, wrap, isFirst, h, h0, h1, lookup_cons, addFinal]
+
+/-! ## 8. non-vacuity -/
+
+/-- a five-interface geometry whose interface 3 has no declared incoming normal side
+(`conv_inc(3)` is a `ValueError`) -/
+def gNoSide : Geo :=
+  { n := 5, incSide := fun k => if k = 3 then Option.none else some true, outSide := fun _ => some true }
+
+/-- a busy history: model functions (which abort on the `ValueError`), a `precompute` block,
+a block that aborts on an error, negative and out-of-range indices, clearing -/
+def busy : List Op :=
+  [.beamspread, .query .signedOut (-2) false, .precompute [(.convInc, 2, true), (.outAngle, -4, false)],
+   .clearIntermediate,
+   .precompute [(.incPolar, 1, false), (.convInc, 3, true), (.convOut, 0, true)],
+   .revBeamspread, .query .incCart 7 true, .transRefl, .query .convOut (-5) true]
+
+-- the hypothesis of the theorems holds for the current code
+example : (g3 false).rawZeroTest = false := rfl
+example : gNoSide.rawZeroTest = false := rfl
+
+-- the reached states are not empty, so the theorems are exercised on hits as well as misses
+example : (run gNoSide {} busy).cache.length = 13 := by decide
+example : (run gNoSide {} busy).finals = [(.convOut, 0), (.convInc, 2), (.convInc, 1)] := by decide
+example : (run (g3 false) {} [.beamspread, .clearIntermediate]).cache.length = 3 := by decide
+
+-- the answers along the history: values, `ValueError`s, an `IndexError`
+example : (step gNoSide {} .beamspread).1 = [.ok .val, .ok .val, .error .value] := rfl
+example : (step gNoSide {} .revBeamspread).1 = [.error .value] := rfl
+example : (step gNoSide (run gNoSide {} busy) .revBeamspread).1 = [.error .value] := rfl
+example : (step gNoSide {} (.query .incCart 7 true)).1 = [.error .index] := rfl
+
+-- all three kinds of answers and both kinds of errors occur, on a fresh object and after `busy`
+example : spec gNoSide .convInc 2 = .ok .val := rfl
+example : spec gNoSide .convInc (-5) = .ok .none := rfl
+example : spec gNoSide .convInc 3 = .error .value := rfl
+example : spec gNoSide .convInc (-2) = .error .value := rfl
+example : spec gNoSide .convInc 5 = .error .index := rfl
+example : spec gNoSide .outPolar (-1) = .ok .none := rfl
+example : (query gNoSide (run gNoSide {} busy) .convInc 2 false).1 = .ok .val := rfl
+example : (query gNoSide (run gNoSide {} busy) .convInc (-2) false).1 = .error .value := rfl
+example : (query gNoSide (run gNoSide {} busy) .convInc (-6) false).1 = .error .index := rfl
+example : (query gNoSide (run gNoSide {} busy) .incLegSize (-5) true).1 = .ok .none := rfl
+
+-- a block that aborts on an error skips the clean-up, and its answers stop at the error;
+-- a block that succeeds keeps only the final entries
+example : (step gNoSide {} (.precompute [(.incPolar, 1, false), (.convInc, 3, true), (.convOut, 0, true)])).1
+    = [.ok .val, .error .value] := rfl
+example : (step gNoSide {} (.precompute [(.incPolar, 1, false), (.convInc, 3, true)])).2.cache.length = 6 := by
+  decide
+example : (step gNoSide {} (.precompute [(.incPolar, 1, false), (.convInc, 2, true)])).2.cache.length = 1 := by
+  decide
+
+-- `Inv` is not trivially true, and `query_transparent` needs it: a poisoned cache answers wrongly
+def poisoned : St := { cache := [((.incLegSize, 0), .val)] }
+
+example : ¬ Inv (g3 false) poisoned := by
+  intro h
+  have h1 := (h .incLegSize 0 .val rfl).2
+  have h2 : spec (g3 false) .incLegSize ((0 : Nat) : Int) = .ok .none := rfl
+  rw [h2] at h1; cases h1
+
+example : (query (g3 false) poisoned .incLegSize (-3) true).1 = .ok .val ∧
+    spec (g3 false) .incLegSize (-3) = .ok .none := ⟨rfl, rfl⟩
+
+-- instances of the main theorems
+example : (query gNoSide (run gNoSide {} busy) .signedInc (-1) true).1 = spec gNoSide .signedInc (-1) :=
+  cache_transparent gNoSide rfl busy _ _ _
+example : (query gNoSide (run gNoSide {} busy) .outCart (-3) true).1 =
+    (query gNoSide (run gNoSide {} busy) .outCart 2 true).1 :=
+  neg_index_interchangeable gNoSide rfl busy .outCart (-3) (by decide) true
+example : Inv gNoSide (run gNoSide {} busy) := inv_run gNoSide rfl busy {} (inv_init _)
 
 end Arim.C14
